@@ -203,7 +203,8 @@ const FAULT_MENU: [FaultKind; 6] = [
 /// Scripted plain workloads that some sweep checks run after their generated ones.
 fn sweep_scripts(id: &str) -> Vec<(&'static str, u64, u64, ScriptFn)> {
     match id {
-        "C03" => vec![("window-saturation", 500, 50_000, crate::scripts::saturation_script)],
+        "C02" => vec![("wrap", 1000, 100_000, wrap_script)],
+        "C03" => vec![("window-saturation", 500, 50_000, crate::scripts::saturation_script), ("wrap", 400, 40_000, wrap_script)],
         "C16" => vec![("wrap", 300, 30_000, wrap_script), ("window-saturation", 200, 20_000, crate::scripts::saturation_script)],
         _ => vec![],
     }
@@ -495,7 +496,8 @@ fn wrap_script(r: &mut Rng, _index: u64, _tier: Tier) -> (CaseCfg, Vec<Step>) {
     let release_phase = release_phase || crowded;
     for _ in 0..n_long {
         tag += 1;
-        s.push(match if release_phase { 2 } else { r.below(4) } {
+        // (long-lived operations that straddle the wrap are QoS 1 publishes more often than not)
+        s.push(match if release_phase { 2 } else if base >= 65534 && r.chance(1, 2) { 3 } else { r.below(4) } {
             0 => Step::Subscribe(SubSpec { filters: vec![FilterSpec { filter: "w/#".into(), max_qos: 1, no_local: false, rap: false, rh: 0 }], props: vec![], cancel_at: None }),
             1 => Step::Unsubscribe(UnsubSpec { filters: vec!["w".into()], props: vec![], cancel_at: None }),
             2 => pubq(2, "long", tag, 5),
@@ -557,6 +559,20 @@ fn wrap_script(r: &mut Rng, _index: u64, _tier: Tier) -> (CaseCfg, Vec<Step>) {
             // identifiers burnt by refused requests
             s.push(Step::BurnIds(r.range(1, 3)));
         }
+    }
+    // half of the time one of the operations around the wrap is acknowledged on its own first
+    if r.chance(1, 2) {
+        s.push(Step::Broker(BrokerAct::Release { n: 1, order: Order::Fifo }));
+        s.push(poll0());
+        s.push(poll0());
+    }
+    // ... and half of the time the session is resumed once more before everything is acknowledged,
+    // so that whatever is still retained shows on the wire
+    if r.chance(1, 2) {
+        s.push(Step::DropConn);
+        s.push(connect_with(SpMode::Force(true), AckMode::Hold, vec![]));
+        s.push(poll0());
+        s.push(poll0());
     }
     s.push(Step::Broker(BrokerAct::Release { n: 99, order: Order::Fifo }));
     for _ in 0..12 {
